@@ -70,7 +70,7 @@ mod __verif {
         kani::cover!(x == 255);
     }
 
-    // @obligation name=b1_bitmap_as_array2 props=C04 fn=bytesearch::ByteBitmap::as_array kind=complete domain="every 2-element bitmap" min_checks=10
+    // @obligation name=b1_bitmap_as_array2 props=C04:t fn=bytesearch::ByteBitmap::as_array kind=complete domain="every 2-element bitmap" min_checks=10
     // When count_bits() == 2, as_array::<2>() lists the two members in increasing order.
     #[kani::proof]
     #[kani::unwind(258)]
@@ -82,7 +82,7 @@ mod __verif {
         kani::cover!(y == 255 && x == 0);
     }
 
-    // @obligation name=b1_bitmap_as_array3 props=C04 fn=bytesearch::ByteBitmap::as_array kind=complete domain="every 3-element bitmap" min_checks=10
+    // @obligation name=b1_bitmap_as_array3 props=C04:t fn=bytesearch::ByteBitmap::as_array kind=complete domain="every 3-element bitmap" min_checks=10 timeout=2400 w=2
     // When count_bits() == 3, as_array::<3>() lists the three members in increasing order.
     #[kani::proof]
     #[kani::unwind(258)]
